@@ -30,12 +30,15 @@ TRUSTED_BASE = [
 ASSUMPTIONS = [
     "Arithmetic is exact over a field; IEEE rounding, overflow and NaN propagation are outside the theorems (a zero divisor in the model = non-finite entries in floats, validated by the correspondence stream)",
     "h, h_inv, s, y are given (not None) and subspace indexes are in range; SR1's h-from-h_inv fallback is exercised on the implementation only",
-    "positive definiteness is the eigenvalue oracle's verdict on the update the class returns",
+    "positive definiteness is the eigenvalue oracle's verdict on the reduced update the class computes (active block with a subspace)",
+    "subspace indexes are distinct, non-negative and in range; Hessians are float or integer-valued ndarrays",
 ]
 RULE = ("all 8 updater classes x dimension n x {definite, indefinite} symmetric H with entries k/8 x step/gradient-change kinds "
-        "{random, curvature-consistent, near-orthogonal, tiny, zero step, orthogonal, y = H s, s = y = 0} x {no subspace, random index "
-        "subspace of a larger matrix}; implementation-side oracles additionally for n up to 30 with float inputs; a case is "
-        "non-trivial unless the updater is NullUpdate; distinct by (stream, class, n, H kind, vector kind, subspace, seed index)")
+        "{random, curvature-consistent, near-orthogonal (y and y-Hs), tiny, tiny curvature; zero step, orthogonal, y = H s, s = y = 0, "
+        "y = 0, s.H.s = 0, s = B y} x {no subspace, all indexes, random index subspace of a larger matrix} x {h only, h and h_inv}; "
+        "implementation-side oracles additionally for n up to 30 with float inputs, int-dtype Hessians, repeated reads of one "
+        "object, and update_h_from_old_h on fully and partly active coordinates; a case is non-trivial unless the updater is "
+        "NullUpdate; distinct by (stream, class, n, H kind, vector kind, subspace, seed index)")
 
 # Functions the HAND-WRITTEN parts (Model.full_update / Model.first_applicable, and the harness's
 # update_h_from_old_h oracle which builds CartesianCoordinates and passes subspace_idxs = all indexes) were
@@ -59,7 +62,8 @@ CLASSES = ["BFGSUpdate", "BFGSPDUpdate", "BFGSDampedUpdate", "SR1Update", "NullU
            "FlowchartUpdate", "BFGSSR1Update"]
 COQ_CLS = {"BFGSUpdate": "BFGS", "BFGSPDUpdate": "BFGSPD", "BFGSDampedUpdate": "BFGSDamped", "SR1Update": "SR1",
            "NullUpdate": "Null", "BofillUpdate": "Bofill", "FlowchartUpdate": "Flowchart", "BFGSSR1Update": "BFGSSR1"}
-CLOSED_INV = {"BFGSUpdate", "BFGSPDUpdate", "BFGSDampedUpdate", "SR1Update", "NullUpdate"}
+# closed-form inverse updates; the others (incl. BFGSDampedUpdate since f804bb7) return np.linalg.inv(updated_h)
+CLOSED_INV = {"BFGSUpdate", "BFGSPDUpdate", "SR1Update", "NullUpdate"}
 MIN_EIG = 1e-5
 REL_MARGIN = 1e-6          # divisors / guard decisions closer than this (relative) are skipped
 
@@ -128,6 +132,25 @@ def gen_sy(rng, n, h, kind):
             if not w.any():
                 w[i if s[i] == 0 else j] = 1.0 if (s[i] == 0 or s[j] == 0) else 0.0
         return s, h @ s + w + rng.choice([-1, 1]) * s / 1024.0
+    if kind == "tiny-curvature":         # y.s = +|s|^2 2^-18: BFGS then has an eigenvalue <= 3.8e-6 < min_eigenvalue
+        s = rv()
+        if not s.any():
+            s[0] = 1.0
+        w = np.zeros(n)
+        if n >= 2:
+            i, j = rng.sample(range(n), 2)
+            w[i], w[j] = -s[j], s[i]
+        return s, w + s / 2.0**18
+    if kind == "exact-inverse":          # s = B y exactly for the inverse-Hessian guess B = 2I - H/4 used by degenerate_case
+        y = rv()
+        if not y.any():
+            y[0] = 0.5
+        return (2.0 * np.eye(n) - 0.25 * h) @ y, y
+    if kind == "zero-gradient-change":   # y = 0, s != 0
+        s = rv()
+        if not s.any():
+            s[0] = 0.5
+        return s, np.zeros(n)
     if kind == "tiny":
         s, y = rv(), rv()
         if not s.any():
@@ -157,8 +180,27 @@ def gen_sy(rng, n, h, kind):
     raise ValueError(kind)
 
 
-REGULAR = ["random", "curvature", "near-orthogonal", "near-orthogonal-z", "tiny"]
-DEGENERATE = ["zero-step", "orthogonal", "exact-quadratic", "all-zero"]
+REGULAR = ["random", "curvature", "near-orthogonal", "near-orthogonal-z", "tiny", "tiny-curvature"]
+DEGENERATE = ["zero-step", "orthogonal", "exact-quadratic", "all-zero", "zero-gradient-change", "null-cone", "exact-inverse"]
+
+
+def gen_case(rng, n, hk, kind):
+    """(h, s, y) for any kind; 'null-cone' (s.H.s = 0 with s != 0) needs its own H."""
+    h = gen_h(rng, n, hk)
+    if kind != "null-cone":
+        s, y = gen_sy(rng, n, h, kind)
+        return h, s, y
+    s = np.zeros(n)
+    if n == 1:
+        h[0, 0], s[0] = 0.0, 1.0
+    else:
+        i, j = rng.sample(range(n), 2)
+        s[i] = s[j] = 1.0
+        h[j, j] = -h[i, i] - 2.0 * h[i, j]
+    y = np.array([rand_k8(rng) for _ in range(n)])
+    if float(s @ y) <= 0:
+        y = -y if float(s @ y) < 0 else y + s
+    return h, s, y
 
 
 def gen_subspace(rng, n_sub, big):
@@ -367,13 +409,19 @@ def oracle_case(cname, cls, h, s, y, idxs, big_h, big_s, big_y, report, cl):
         if isinstance(ui, tuple):
             if not (ui[1] == "LinAlgError"):
                 report(f"inverse-raises:{cname}", f"{tag}.updated_h_inv raised {ui[1]}")
-        elif okdiv and finite(ui) and cname != "BFGSDampedUpdate":
-            # (the damped class inherits the UNdamped inverse formula: only compared when theta = 1)
+        elif okdiv and finite(ui):
             cond = np.linalg.cond(up)
+            asym_i = float(np.max(np.abs(ui - ui.T)))
+            if cond < 1e6 and asym_i > (1e-9 + 1e-13 * cond) * (float(np.max(np.abs(ui))) + 1e-300):
+                report(f"asymmetric-inv:{cname}", f"{tag}.updated_h_inv is not symmetric: max |B' - B'^T| = {asym_i:.3e}")
             if cond < 1e6:
                 dev = float(np.max(np.abs(up @ ui - np.eye(n))))
                 if dev > 1e-7 * cond:
-                    report(f"inverse-mismatch:{cname}", f"{tag}: updated_h . updated_h_inv deviates from I by {dev:.3e} (cond {cond:.2e})")
+                    key = f"inverse-mismatch:{cname}"
+                    if cname == "BFGSDampedUpdate" and powell_target(h, s, y)[1] != 1.0:
+                        key += "|damping-active"      # fixed by f804bb7 (the class used to inherit the UNdamped inverse formula)
+                    report(key, f"{tag}{' sel=all' if sel else ''}: updated_h . updated_h_inv deviates from I by {dev:.3e} "
+                                f"(cond {cond:.2e}) although h_inv = inv(h)")
     # positive-definite classes only applicable when the result is positive definite
     if cname in ("BFGSPDUpdate", "BFGSDampedUpdate") and res["conditions_met"] is True:
         lam = float(np.linalg.eigvalsh((sub + sub.T) / 2.0)[0])
@@ -396,27 +444,131 @@ def oracle_case(cname, cls, h, s, y, idxs, big_h, big_s, big_y, report, cl):
             report("guard:SR1Update", f"{tag}: |s.z| = {lhs:.6g}, 1e-8 |s||z| = {rhs:.6g} but conditions_met = {cm}")
 
 
+def degenerate_cause(h, h_inv, s, y, inverse=False):
+    """Which exactly-vanishing quantity makes the input degenerate for the direct (resp. inverse) form, in exact
+    rational arithmetic on the floats: the first that applies of  s=0, y=0, y.s=0, sHs=0, y=Hs, (y-Hs).s=0
+    (inverse form:  y=0, y.s=0, (s-Binv.y).y=0, s=0), else 'none'."""
+    if inverse:
+        t = [F(a) - b for a, b in zip(s, fmatvec(h_inv, y))]
+        if not any(y):
+            return "y=0"
+        if fdot(s, y) == 0:
+            return "y.s=0"
+        if sum(a * F(b) for a, b in zip(t, y)) == 0:
+            return "(s-Binv.y).y=0"
+        return "s=0" if not any(s) else "none"
+    hs = fmatvec(h, s)
+    z = [F(a) - b for a, b in zip(y, hs)]
+    if not any(s):
+        return "s=0"
+    if not any(y):
+        return "y=0"
+    if fdot(s, y) == 0:
+        return "y.s=0"
+    if fdot(s, hs) == 0:
+        return "sHs=0"
+    if not any(z):
+        return "y=Hs"
+    if sum(a * F(b) for a, b in zip(z, s)) == 0:
+        return "(y-Hs).s=0"
+    return "none"
+
+
 def degenerate_case(cname, cls, h, s, y, kind, report):
-    """Property clause: degenerate step information leaves the Hessian unchanged rather than producing
-    non-finite entries (whenever the updater declares itself applicable)."""
-    res = run_updater(cls, h, None, s, y, None)
-    cm, up = res["conditions_met"], res["updated_h"]
-    tag = f"{cname}(n={len(s)}, {kind})"
+    """Property clause: degenerate step information leaves the (inverse) Hessian unchanged rather than producing
+    non-finite entries (whenever the updater declares itself applicable).  Keys carry the input kind (and
+    `|inverse` for updated_h_inv) so that a NEW way of producing NaN is not filed under a known one."""
+    n = len(s)
+    h_inv = 2.0 * np.eye(n) - 0.25 * h          # exact dyadic symmetric inverse-Hessian guess
+    res = run_updater(cls, h, h_inv, s, y, None)
+    cm, up, ui = res["conditions_met"], res["updated_h"], res["updated_h_inv"]
+    cause = degenerate_cause(h, h_inv, s, y)
+    tag = f"{cname}(n={n}, {kind}: {cause})"
+    key = f"degenerate-step:{cname}|{cause}"
     if isinstance(cm, tuple):
-        report(f"degenerate-step:{cname}", f"{tag}.conditions_met raised {cm[1]} instead of declining the update")
+        report(key, f"{tag}.conditions_met raised {cm[1]} instead of declining the update")
         return
     if cm is True:
         if isinstance(up, tuple):
-            report(f"degenerate-step:{cname}", f"{tag}: conditions_met is True but updated_h raised {up[1]}")
+            report(key, f"{tag}: conditions_met is True but updated_h raised {up[1]}")
         elif not finite(up):
-            report(f"degenerate-step:{cname}", f"{tag}: conditions_met is True and updated_h has non-finite entries "
-                                               f"(division by zero) instead of leaving the Hessian unchanged")
+            report(key, f"{tag}: conditions_met is True and updated_h has non-finite entries "
+                        f"(division by zero) instead of leaving the Hessian unchanged")
+        elif isinstance(ui, tuple):
+            if ui[1] != "LinAlgError" or cname in CLOSED_INV:        # a singular update has no inverse: not a defect
+                report(f"degenerate-step:{cname}|{degenerate_cause(h, h_inv, s, y, True)}|inverse",
+                       f"{tag}: conditions_met is True, updated_h is finite but updated_h_inv raised {ui[1]}")
+        elif not finite(ui):
+            report(f"degenerate-step:{cname}|{degenerate_cause(h, h_inv, s, y, True)}|inverse",
+                   f"{tag}: conditions_met is True, updated_h is finite but updated_h_inv has non-finite "
+                                     f"entries (division by zero) instead of leaving the inverse Hessian unchanged")
+
+
+def state_case(cname, cls, h, h_inv, s, y, idxs, report):
+    """One updater object queried repeatedly: conditions_met and updated_h / updated_h_inv are functions of the
+    constructor arguments only (re-reading gives the same answer) and the caller's arrays are not modified."""
+    H, HI, S, Y = h.copy(), h_inv.copy(), s.copy(), y.copy()
+    tag = f"{cname}(n={len(s)}, subspace={'None' if idxs is None else idxs})"
+    with warnings.catch_warnings():
+        warnings.simplefilter("ignore")
+        with np.errstate(all="ignore"):
+            try:
+                u = cls(h=H, h_inv=HI, s=S, y=Y, subspace_idxs=None if idxs is None else list(idxs))
+                c0 = bool(u.conditions_met)
+                a1 = np.array(u.updated_h, dtype=float)
+                c1 = bool(u.conditions_met)
+                a2 = np.array(u.updated_h, dtype=float)
+                b1 = np.array(u.updated_h_inv, dtype=float)
+                b2 = np.array(u.updated_h_inv, dtype=float)
+                c2 = bool(u.conditions_met)
+            except Exception:  # noqa  (degenerate inputs / singular updates are the business of other oracles)
+                return
+    for nm, orig, now in (("h", h, H), ("h_inv", h_inv, HI), ("s", s, S), ("y", y, Y)):
+        if not np.array_equal(orig, now):
+            report(f"state:input-mutated:{cname}", f"{tag}: the caller's `{nm}` array was modified in place "
+                                                   f"(max change {float(np.max(np.abs(orig - now))):.3e})")
+            return
+    if not (np.array_equal(a1, a2, equal_nan=True) and np.array_equal(b1, b2, equal_nan=True)):
+        which = "updated_h" if not np.array_equal(a1, a2, equal_nan=True) else "updated_h_inv"
+        report(f"state:reread-differs:{cname}", f"{tag}: reading {which} a second time gives a different matrix")
+    elif not (c0 == c1 == c2):
+        report(f"state:conditions-change:{cname}", f"{tag}: conditions_met was {c0} before and {c1}/{c2} after reading the update")
+
+
+def int_dtype_case(classes, h_int, s, y, idxs, report):
+    """An integer-valued Hessian passed as an int ndarray is still a symmetric Hessian: the update must be the one
+    obtained for the same numbers as floats."""
+    for cname, cls in classes.items():
+        a = run_updater(cls, h_int, None, s, y, idxs)["updated_h"]
+        b = run_updater(cls, h_int.astype(float), None, s, y, idxs)["updated_h"]
+        if isinstance(a, tuple) or isinstance(b, tuple) or not (finite(a) and finite(b)):
+            continue
+        if not np.allclose(a, b, rtol=1e-12, atol=1e-12):
+            report("subspace-int-dtype-truncated", f"{cname}(subspace={idxs}): updated_h for an int-dtype Hessian differs from "
+                                                   f"the float-dtype result by up to {float(np.max(np.abs(a - b))):.3e} "
+                                                   f"(update written into an integer copy: truncated)")
+            return
+
+
+def partly_active_coords(x, active):
+    """CartesianCoordinates whose `active_indexes` is `active` (a proper subset of the coordinates plus, like
+    DICWithConstraints' Lagrange multipliers, indexes >= len(x) which active_mol_indexes must drop)."""
+    from autode.opt.coordinates import CartesianCoordinates
+
+    class PartlyActive(CartesianCoordinates):
+        @property
+        def active_indexes(self):
+            return list(self._verif_active)
+    c = PartlyActive(x)
+    c._verif_active = None if active is None else list(active)
+    if active is None:
+        c = CartesianCoordinates(x)
+    return c
 
 
 def first_applicable_case(ctx, rng, classes, n, report, fixed=None):
-    """update_h_from_old_h uses the first updater whose conditions are met (on ALL coordinates of a
-    CartesianCoordinates object).  `report(key, what, extra_replay)`; `fixed`: a stored replay."""
-    from autode.opt.coordinates import CartesianCoordinates
+    """update_h_from_old_h uses the first updater whose conditions are met, restricted to the coordinates that
+    are active AND belong to the molecule (active_mol_indexes).  `report(key, what, extra_replay)`."""
     if fixed is None:
         h = gen_h(rng, n, rng.choice(["definite", "indefinite"]))
         x0 = np.array([rand_k8(rng) for _ in range(n)])
@@ -424,16 +576,24 @@ def first_applicable_case(ctx, rng, classes, n, report, fixed=None):
         g0 = np.array([rand_k8(rng) for _ in range(n)])
         names = [rng.choice(["BFGSPDUpdate", "BFGSDampedUpdate", "SR1Update", "BFGSUpdate", "BofillUpdate", "NullUpdate"])
                  for _ in range(rng.randint(1, 3))]
+        if n >= 2 and rng.random() < 0.4:      # an undisplaced coordinate: exactly-zero step component
+            s[rng.randrange(n)] = 0.0
+            if not s.any():
+                s[0] = 0.5
+        active = None
+        if n >= 2 and rng.random() < 0.5:      # proper subset + multiplier-like indexes beyond the molecule
+            active = sorted(rng.sample(range(n), rng.randint(1, n - 1))) + [n + k for k in range(rng.randint(0, 2))]
     else:
         h, x0, s, y, g0 = (np.array(fixed[k], dtype=float) for k in ("h", "x0", "s", "y", "g0"))
-        names = fixed["names"]
+        names, active = fixed["names"], fixed.get("active")
     data = {"kind": "first-applicable", "h": h.tolist(), "x0": x0.tolist(), "s": s.tolist(), "y": y.tolist(),
-            "g0": g0.tolist(), "names": names}
-    old, new = CartesianCoordinates(x0), CartesianCoordinates(x0 + s)
+            "g0": g0.tolist(), "names": names, "active": active}
+    idxs = list(range(n)) if active is None else [i for i in active if i < n]
+    old, new = partly_active_coords(x0, active), partly_active_coords(x0 + s, active)
     old._h, old._g, new._g = h.copy(), g0.copy(), g0 + y
     conds = []
     for nm in names:
-        r = run_updater(classes[nm], h, None, s, y, list(range(n)))
+        r = run_updater(classes[nm], h, None, s, y, idxs)
         conds.append(r)
     if any(isinstance(r["conditions_met"], tuple) for r in conds):
         return None
@@ -447,10 +607,16 @@ def first_applicable_case(ctx, rng, classes, n, report, fixed=None):
                 got = np.array(new._h, dtype=float)
             except Exception as e:  # noqa
                 exc = e
-    case = {"names": names, "conds": [bool(r["conditions_met"]) for r in conds]}
+    where = f"the active molecular coordinates {idxs} of {n}"
+    matches = [] if got is None else [k for k, r in enumerate(conds) if not isinstance(r["updated_h"], tuple)
+                                      and got.shape == r["updated_h"].shape
+                                      and np.allclose(got, r["updated_h"], rtol=1e-12, atol=1e-12, equal_nan=True)]
+    case = {"names": names, "conds": [bool(r["conditions_met"]) for r in conds], "matches": matches,
+            "raised": isinstance(exc, RuntimeError), "active": active,
+            "usable": exc is None or isinstance(exc, RuntimeError)}
     if exc is not None and not (want is None and isinstance(exc, RuntimeError)):
         report("first-applicable", f"update_h_from_old_h({names}) raised {type(exc).__name__}: {str(exc)[:80]} although "
-                                   f"{'no updater' if want is None else names[want]} is applicable on all {n} coordinates", data)
+                                   f"{'no updater' if want is None else names[want]} is applicable on {where}", data)
     elif want is None:
         if exc is None:
             report("first-applicable", f"update_h_from_old_h({names}) updated the Hessian although no updater's conditions are met", data)
@@ -458,7 +624,13 @@ def first_applicable_case(ctx, rng, classes, n, report, fixed=None):
         exp = conds[want]["updated_h"]
         if finite(exp) and (got.shape != exp.shape or not np.allclose(got, exp, rtol=1e-12, atol=1e-12)):
             report("first-applicable", f"update_h_from_old_h({names}) did not return the update of the first applicable updater "
-                                       f"{names[want]} on all {n} coordinates", data)
+                                       f"{names[want]} restricted to {where}", data)
+        if finite(exp) and got.shape == exp.shape and len(idxs) < n:
+            mask = np.ones((n, n), dtype=bool)
+            mask[np.ix_(idxs, idxs)] = False
+            if not np.array_equal(got[mask], h[mask]):
+                report("first-applicable-inactive-touched", f"update_h_from_old_h({names}) changed Hessian entries of inactive "
+                                                            f"coordinates (active: {idxs} of {n})", data)
     return case, want
 
 
@@ -480,13 +652,19 @@ def impl_oracles(ctx, classes, full, only=None):
         first_applicable_case(ctx, rng, classes, len(only["s"]), make_report(only), fixed=only)
         return nfail[0]
 
+    if only is not None and only.get("kind") == "int-dtype":
+        int_dtype_case(classes, np.array(only["h"]), np.array(only["s"]), np.array(only["y"]), only["idxs"], make_report(only))
+        return nfail[0]
+
     if only is not None:
         cname = only["class"]
         h, s, y = np.array(only["h"]), np.array(only["s"]), np.array(only["y"])
         idxs = only.get("idxs")
         rep = dict(only)
-        if only.get("degenerate"):
-            degenerate_case(cname, classes[cname], h, s, y, only.get("kind", "?"), make_report(rep))
+        if only.get("state"):
+            state_case(cname, classes[cname], h, np.array(only["h_inv"]), s, y, idxs, make_report(rep))
+        elif only.get("degenerate"):
+            degenerate_case(cname, classes[cname], h, s, y, only.get("kind_sy", "?"), make_report(rep))
         else:
             big_h, big_s, big_y = (np.array(only[k]) if only.get(k) is not None else None for k in ("big_h", "big_s", "big_y"))
             oracle_case(cname, classes[cname], h, s, y, idxs, big_h, big_s, big_y, make_report(rep), classify(cname, h, s, y))
@@ -525,12 +703,32 @@ def impl_oracles(ctx, classes, full, only=None):
                                "big_s": None if big_s is None else big_s.tolist(),
                                "big_y": None if big_y is None else big_y.tolist()}
                         oracle_case(cname, cls, h, s, y, idxs, big_h, big_s, big_y, make_report(rep), cl)
+                        # state: repeated reads / caller's arrays, with no subspace, ALL indexes in order, a proper subspace
+                        if not (cl["zero"] or cl["marginal"]) and n <= 12:
+                            if idxs is None:
+                                sh, ss_, sy_, sidx = h, s, y, (None if r % 2 else list(range(n)))
+                            else:
+                                sh, ss_, sy_, sidx = big_h, big_s, big_y, idxs
+                            shi = 2.0 * np.eye(sh.shape[0]) - 0.5 * sh
+                            state_case(cname, cls, sh, shi, ss_, sy_, sidx,
+                                       make_report({"kind": "impl-oracle", "state": True, "class": cname, "h": sh.tolist(),
+                                                    "h_inv": shi.tolist(), "s": ss_.tolist(), "y": sy_.tolist(), "idxs": sidx}))
+    # integer-valued Hessian arrays (dtype int) with a subspace
+    for k in range(12 if full else 4):
+        n, big = rng.randint(1, 4), 0
+        big = n + rng.randint(1, 2)
+        hf = gen_h(rng, big, "indefinite")
+        hi = np.rint(hf * 8).astype(int)
+        idxs = gen_subspace(rng, n, big)
+        s, y = np.array([rand_k8(rng) for _ in range(big)]), np.array([rand_k8(rng) for _ in range(big)])
+        ctx.count("impl-int-dtype", (n, big, k))
+        int_dtype_case(classes, hi, s, y, idxs, make_report({"kind": "int-dtype", "h": hi.tolist(), "s": s.tolist(),
+                                                              "y": y.tolist(), "idxs": idxs}))
     # degenerate step information
     for n in ([1, 2, 3, 7, 30] if full else [1, 2, 5]):
         for hk in ("definite", "indefinite"):
             for vk in DEGENERATE:
-                h = gen_h(rng, n, hk)
-                s, y = gen_sy(rng, n, h, vk)
+                h, s, y = gen_case(rng, n, hk, vk)
                 for cname, cls in classes.items():
                     ctx.count("impl-degenerate", (cname, n, hk, vk), nontrivial=(cname != "NullUpdate"),
                               sample={"class": cname, "n": n, "H": hk, "sy": vk})
@@ -629,12 +827,11 @@ def correspondence(ctx, classes, full):
     for n in range(1, nmax + 1):
         for hi, hk in enumerate(("definite", "indefinite")):
             for ki, vk in enumerate(kinds):
-                if not full and n >= 5 and (ki + hi + n) % 2:
+                if not full and ((n >= 5 and (ki + hi + n) % 3) or (n == 4 and (ki + hi) % 2)):
                     continue                                    # quick tier: half of the grid for the two largest sizes
                 for r in range(reps if n <= 6 else 1):
-                    h = gen_h(rng, n, hk)
+                    h, s, y = gen_case(rng, n, hk, vk)
                     h_inv = gen_h(rng, n, "definite")           # any symmetric matrix: the formulas do not need h.h_inv = I
-                    s, y = gen_sy(rng, n, h, vk)
                     use_sub = (rng.random() < 0.5) and n < nmax
                     if use_sub:
                         big = min(nmax, n + rng.randint(1, 3))
@@ -707,7 +904,9 @@ def correspondence(ctx, classes, full):
                                 ei = f"(IMat {fl_mat(ui.tolist())})"
                                 note("updated_h_inv", "i")
                             elif dz == 0:
-                                pass            # inverse form undefined: the direct form covers the degenerate inputs
+                                # a divisor of the inverse form is exactly zero <=> the implementation's result is non-finite
+                                ei = f"(IUndef {coq_bool(isinstance(ui, tuple) or not finite(ui))})"
+                                note("updated_h_inv-undefined", "iu")
                             elif abs(float(dz)) < REL_MARGIN * max(scale, 1e-300):
                                 skipped["marginal"] += 1
                             elif isinstance(ui, tuple) or not finite(ui):
@@ -728,7 +927,7 @@ def correspondence(ctx, classes, full):
                         entries.append(f"({COQ_CLS[cname]}, {eh}, {ec}, {ei})")
                         meta.append(d)
                     case_terms.append(f"case_checks {opt_idx(idxs)} {coq_nat(big)} {fl_mat(H.tolist())} {fl_mat(HI.tolist())} "
-                                      f"{fl_list(S.tolist())} {fl_list(Y.tolist())} {fl(MIN_EIG)} [" + "; ".join(entries) + "]")
+                                      f"{fl_list(S.tolist())} {fl_list(Y.tolist())} default_mineig [" + "; ".join(entries) + "]")
                     case_meta.append(meta)
     widths = [3 * len(m) for m in case_meta]
     # first applicable updater: model of the loop vs update_h_from_old_h
@@ -738,10 +937,13 @@ def correspondence(ctx, classes, full):
         if out is None:
             continue
         case, want = out
+        if not case["usable"]:
+            continue
         ctx.count("model-vs-impl", ("first", k, tuple(case["names"])), True, sample={"check": "first-applicable", **case})
         nchecks += 1
         fa.append((f"check_first_applicable {coq_list([coq_bool(c) for c in case['conds']])} "
-                   f"{'None' if want is None else '(Some ' + coq_nat(want) + ')'}", case))
+                   f"{coq_list([coq_nat(m) for m in case['matches']])} {coq_bool(case['raised'])}", case))
+    fa.append(("check_defaults", {"check": "default min_eigenvalue of the damped class = that of BFGSPDUpdate"}))
     case_terms.append("[" + "; ".join(t for t, _ in fa) + "]")
     case_meta.append([{"check": "first-applicable", **c} for _, c in fa])
     widths.append(len(fa))
@@ -761,6 +963,12 @@ def correspondence(ctx, classes, full):
 def run(ctx):
     sys.path.insert(0, REPO)
     full = not ctx.quick
+    # coq/gen/C09_Gen.v and its .vo are shared by every C09 run (whatever VERIF_REPO): one run at a time
+    import fcntl
+    os.makedirs(os.path.join(VERIF, ".work"), exist_ok=True)
+    _lk = open(os.path.join(VERIF, ".work", "c09.run.lock"), "w")
+    fcntl.flock(_lk, fcntl.LOCK_EX)
+    ctx._c09_lock = _lk                      # held until the process exits
     pins_changed = source_pins(ctx.pid, PINS)
     ctx.cov["source_pins"] = {"pinned": len(PINS), "changed": pins_changed}
     if pins_changed:
@@ -788,9 +996,10 @@ def run(ctx):
         corr_bad, corr_err, nterms = correspondence(ctx, classes, full)
         ctx.log(f"correspondence: {nterms} terms, {len(corr_bad)} disagreements" + (f"; coq error {corr_err[:300]}" if corr_err else ""))
         ctx.cov["disagreements"] = len(corr_bad)
-    # a concrete failing input other than the (separately keyed) degenerate-step findings explains a broken
+    # a concrete failing input other than the listed known findings explains a broken
     # proof / a disagreement; otherwise the broken obligation itself is reported
-    new_violation = any(not k.startswith("degenerate-step:") for k in ctx.cov.get("impl_failure_keys", []))
+    _known = set(ctx.known_keys())
+    new_violation = any(k not in _known for k in ctx.cov.get("impl_failure_keys", []))
     if not proofs_ok:
         ctx.proof_failure(info, found_any_input=new_violation)
     if pins_changed and not new_violation and proofs_ok and not (corr_bad or corr_err):
@@ -820,21 +1029,30 @@ def replay(ctx, obj):
 
 
 MANIFEST = {
-    "technique": "Coq proof over definitions regenerated from source by a fail-closed ast translator (every dimension, arbitrary field) + exact-rational model/implementation correspondence + implementation-side secant/symmetry/inverse oracles",
+    "technique": "Coq proof over definitions regenerated from source by a fail-closed ast translator (every dimension, arbitrary field) + exact-rational model/implementation correspondence + implementation-side secant/symmetry/inverse/state/degenerate oracles",
     "level_text": ("Machine-checked theorems (coq/C09/Props.v, closed under the global context) over the Gallina definitions "
                    "regenerated from hessian_update.py on every run state, for EVERY dimension n and every field: secant equation "
                    "and symmetry of BFGS (= BFGS-PD), SR1, Bofill (= (1-phi) MS + phi PSB, each a secant solution), every Flowchart "
-                   "branch, BFGS-SR1; the Sherman-Morrison inverse forms of BFGS and SR1 are the inverses of the direct forms; "
-                   "Powell-damped BFGS satisfies H's = theta*y + (1-theta)*Hs with s.y' = 0.2 sHs when damped; the null update is "
-                   "the identity; the sub-space embedding leaves every entry outside idxs x idxs at the (symmetrised) input, "
-                   "places the update in the block and returns a symmetric matrix; the PD classes' guard is the eigenvalue "
-                   "oracle on the update they return; SR1's guard excludes a zero divisor; Bofill's skip branch returns H.  "
-                   "'Degenerate step leaves H unchanged' is REFUTED for BFGS, Bofill, Flowchart, BFGS-SR1 (zero divisor with "
-                   "conditions_met = true) and the PD classes (zero divisor inside conditions_met) with concrete witnesses."),
-    "level_note": ("Trusted: Coq kernel (+vm_compute for witnesses/correspondence); tr/translate_c09.py (validated each run by "
-                   "evaluating the generated definitions at exact rationals against updated_h / updated_h_inv / conditions_met "
-                   "for all 8 classes, n<=6 (10 thorough), with and without subspace, tolerance 1e-9, guard margins skipped and "
-                   "counted); the hand model of __init__/updated_h control flow and of update_h_from_old_h (text pinned, behaviour "
-                   "compared); exact field arithmetic for doubles; sqrt/abs/order/inv/eigvals are oracles (positive definiteness is "
-                   "the oracle's verdict, cross-checked with eigvalsh and Sylvester's criterion on generated inputs only)."),
+                   "branch, BFGS-SR1; the Sherman-Morrison inverse forms of BFGS and SR1 are symmetric and are the inverses of the "
+                   "direct forms; Powell-damped BFGS satisfies H's = theta*y + (1-theta)*Hs with s.y' = 0.2 sHs when damped; the "
+                   "null update is the identity; the sub-space embedding leaves every entry outside idxs x idxs at the "
+                   "(symmetrised) input - of h for updated_h, of h_inv for updated_h_inv -, places the update in the block and "
+                   "returns a symmetric matrix; SR1's guard excludes a zero divisor of the direct form; Bofill's skip branch "
+                   "returns H; the damped class's inverse form is the inverse oracle applied to the damped update.  REFUTED with exact "
+                   "witnesses (and reported as findings on the implementation): 'degenerate step leaves H unchanged' for "
+                   "BFGS, Bofill, Flowchart, BFGS-SR1, the PD classes (zero divisor inside conditions_met) and SR1's inverse form."),
+    "level_note": ("PARTIAL: (a) 'advertised positive definite => applicable only when the result is positive definite' is proved "
+                   "only as 'conditions_met = BFGS guard AND the eigenvalue oracle on the reduced update the class computes' "
+                   "(pd_guard_partial): the oracle is uninterpreted, definiteness is cross-checked by eigvalsh / Sylvester's "
+                   "criterion on generated inputs, and with a subspace it concerns the active block only (the untouched rest may be "
+                   "indefinite); (b) Bofill/Flowchart/BFGS-SR1 inverse forms are numpy.linalg.inv of the direct update "
+                   "(oracle_inverse_forms_partial): mutual inverses only as far as numpy's answer is, checked by multiplying it with "
+                   "the model's update.  Trusted: Coq kernel (+vm_compute for witnesses/correspondence); tr/translate_c09.py "
+                   "(validated each run by evaluating the generated definitions at exact rationals against updated_h / "
+                   "updated_h_inv / conditions_met for all 8 classes, n<=6 (10 thorough), with and without subspace, h and h_inv "
+                   "both given, regular and exactly-degenerate inputs, tolerance 1e-9, guard margins skipped and counted); the hand "
+                   "model of __init__/updated_h control flow and of update_h_from_old_h (text/hash pinned, behaviour compared incl. "
+                   "partly active coordinates); exact field arithmetic for doubles (IEEE NaN/inf = a zero divisor of the model, "
+                   "validated by the stream); sqrt/abs/order/inv/eigvals are oracles.  Outside: SR1 with h=None, duplicate or "
+                   "negative subspace indexes."),
 }
